@@ -13,7 +13,10 @@ META = {
                  "scheduler (hooks at every critical section / atomic step) validated with TLC against "
                  "Trace_Scheduler.tla, which replays them through the actions of Scheduler.tla",
 }
-PREFIXES = ('C14:',)
+# "no worker stays parked while a pending goal exists when all other workers are parked" also covers
+# the fork / shutdown goals: in the fork runs the guards that a pending goal is taken in priority
+# order and that the workers exit for it carry C16's tags; C14 claims them there.
+PREFIXES = ('C14:', 'C16:goal-priority', 'C16:workers-did-not-exit')
 
 
 F1_KEY = "NoStuck:concurrent-phase:mutator-add:lost-notify"
@@ -43,6 +46,9 @@ def run(ctx):
     # gated attempt to reproduce F1 on the real code (reported as KNOWN-FINDING when it succeeds)
     runs.append(sc.SRun("ConcurrentImmix", "gate-f1", driver="scheddrive", workers=2, mutators=1,
                         heap=16, extra=["--gate", "f1"], seed_off=50))
+    # goals other than Gc requested while a collection is in progress (fork cycles racing with GCs)
+    fork = sc.matrix(ctx.tier, "fork")
+    runs += fork[:3] if ctx.tier == "quick" else fork[::4]
     st = sc.execute(ctx, runs, PREFIXES)
     first = st.pop("_first_trace", None)
     if ctx.tier == "thorough" and first and not ctx.violations:
